@@ -60,6 +60,18 @@ func rewriteSpec(src string) (string, error) {
 type specRewriter struct {
 	toks []stok
 	err  error
+	lazy bool // executable form: A ==> B becomes (!(A) || (B)) so that B is not evaluated when A is false
+}
+
+// rewriteSpecExec is rewriteSpec for code that will actually run (replay tests).
+func rewriteSpecExec(src string) (string, error) {
+	toks, err := scanSpec(src)
+	if err != nil {
+		return "", err
+	}
+	p := &specRewriter{toks: toks, lazy: true}
+	out := p.group(0, len(toks))
+	return out, p.err
 }
 
 func isOpen(t token.Token) bool  { return t == token.LPAREN || t == token.LBRACK || t == token.LBRACE }
@@ -147,6 +159,9 @@ func (p *specRewriter) segment(lo, hi int) string {
 			lhs := p.segmentNoImpl(lo, j)
 			// rhs may start with a quantifier
 			rhs := p.group(j+2, hi)
+			if p.lazy {
+				return fmt.Sprintf("(!(%s) || (%s))", lhs, rhs)
+			}
 			return fmt.Sprintf("__implies(%s, %s)", lhs, rhs)
 		}
 	}
